@@ -4,6 +4,7 @@ import (
 	"encoding/xml"
 	"errors"
 	"fmt"
+	"io"
 	"net/http"
 	"strings"
 
@@ -62,6 +63,17 @@ func (f *faultWriter) Write(p []byte) (int, error) {
 	return len(p), nil
 }
 
+// ReadFrom: like net/http's own response writer the recording writer is an io.ReaderFrom
+// (io.Copy prefers it when the destination offers it).
+func (f *faultWriter) ReadFrom(r io.Reader) (int64, error) {
+	b, err := io.ReadAll(r)
+	if err != nil {
+		return 0, err
+	}
+	n, werr := f.Write(b)
+	return int64(n), werr
+}
+
 type c15Entity struct {
 	XMLName xml.Name `json:"-" xml:"item"`
 	Name    string   `json:"name" xml:"name"`
@@ -84,6 +96,8 @@ type c15Seq struct {
 	Coding  string `json:"coding"` // "" | gzip | deflate
 	UseResp bool   `json:"pretty_via_response"`
 	Adapter bool   `json:"middleware_adapter_between_observer_and_handler"`
+	Copy    bool   `json:"body_chunks_via_io_copy"` // body chunks are sent with io.Copy(resp, reader) instead of resp.Write
+	HWF     bool   `json:"plain_handler_via_HandleWithFilter"`
 }
 
 var c15Firsts = []string{"none", "WriteHeader", "WriteEntity", "WriteHeaderAndEntity", "WriteAsJson", "WriteAsXml", "WriteHeaderAndJson", "WriteHeaderAndXml", "WriteJson",
@@ -170,6 +184,14 @@ func runC15(s *c15Seq, limit int) *c15Run {
 		for i, n := range s.Writes {
 			chunk := []byte(strings.Repeat(string(rune('a'+i)), n))
 			call(func() error {
+				if s.Copy && i%2 == 0 {
+					// a plain io.Reader (no WriterTo): io.Copy then looks for ReaderFrom on the destination, else uses Write
+					k, err := io.Copy(resp, struct{ io.Reader }{strings.NewReader(string(chunk))})
+					if err == nil {
+						run.plainSent += int(k)
+					}
+					return err
+				}
 				k, err := resp.Write(chunk)
 				if err == nil {
 					run.plainSent += k
@@ -178,11 +200,27 @@ func runC15(s *c15Seq, limit int) *c15Run {
 			})
 		}
 	}
+	c.HandleWithFilter("/hwf/", http.HandlerFunc(func(w http.ResponseWriter, r *http.Request) {
+		// a plain net/http handler behind the container filters: status, then body chunks
+		call := func(f func() error) {
+			cur = len(run.errs)
+			run.errs = append(run.errs, f())
+		}
+		if s.First != "none" {
+			call(func() error { w.WriteHeader(s.Status); return nil })
+		}
+		for i, n := range s.Writes {
+			chunk := []byte(strings.Repeat(string(rune('a'+i)), n))
+			call(func() error { _, err := w.Write(chunk); return err })
+		}
+	}))
 	ws.Route(ws.GET("/x").Produces(restful.MIME_JSON, restful.MIME_XML).To(h))
 	ws.Route(ws.GET("/csv").Produces("text/csv").To(h))
 	c.Add(ws)
 	req := rt.Req{Method: "GET", Path: "/b/x", Hdr: map[string]string{}}
-	if s.First == "WriteEntity406" {
+	if s.HWF {
+		req.Path = "/hwf/x"
+	} else if s.First == "WriteEntity406" {
 		req.Path = "/b/csv"
 		req.HasAcc, req.Accept = true, "text/csv"
 	} else if s.Accept != "" {
@@ -194,14 +232,18 @@ func runC15(s *c15Seq, limit int) *c15Run {
 	hr := rt.HTTPRequest(&req, nil)
 	func() {
 		defer func() { run.panicked = recover() }()
-		c.Dispatch(fw, hr)
+		if s.HWF {
+			c.ServeHTTP(fw, hr)
+		} else {
+			c.Dispatch(fw, hr)
+		}
 	}()
 	return run
 }
 
 func c15(ctx *core.Ctx) {
 	quietLogs()
-	ctx.Rule("generated call sequences: first call in {none, WriteHeader, WriteEntity (JSON/XML by Accept, also the 406 dead end), WriteHeaderAndEntity, WriteAsJson/Xml, WriteHeaderAndJson/Xml, WriteJson, WriteError (err / nil), WriteErrorString, WriteServiceError} with payload {small, 500-byte, nil, unmarshalable} and pretty-print on/off (package switch or Response.PrettyPrint), then 0-5 Write calls of {0,1,10,300} bytes; without coding and with gzip/deflate in between. Faults: the underlying writer accepts exactly k bytes then fails every call, k enumerated over EVERY byte position of the fault-free output (call boundaries and inside calls). A trailing container filter reads StatusCode()/ContentLength(). Oracle: StatusCode() == status the underlying writer received (200 if none); without coding ContentLength() == bytes accepted and the call during which the writer first failed returns the injected error; with coding (fault-free) ContentLength() == plaintext length == decoded length. Non-trivial = a run with >= 1 body byte or a non-200 status; distinct by (first call, value, pretty, coding, fault class: none/at-boundary/inside-call, failing call kind).")
+	ctx.Rule("generated call sequences: first call in {none, WriteHeader, WriteEntity (JSON/XML by Accept, also the 406 dead end), WriteHeaderAndEntity, WriteAsJson/Xml, WriteHeaderAndJson/Xml, WriteJson, WriteError (err / nil), WriteErrorString, WriteServiceError} with payload {small, 500-byte, nil, unmarshalable} and pretty-print on/off (package switch or Response.PrettyPrint), then 0-5 body chunks of {0,1,10,300} bytes sent with Write or io.Copy (the underlying writer is an io.ReaderFrom, as net/http's is); every 9th sequence is a plain handler behind HandleWithFilter (WriteHeader + Write); without coding and with gzip/deflate in between. Faults: the underlying writer accepts exactly k bytes then fails every call, k enumerated over EVERY byte position of the fault-free output (call boundaries and inside calls). A trailing container filter reads StatusCode()/ContentLength(). Oracle: StatusCode() == status the underlying writer received (200 if none); without coding ContentLength() == bytes accepted and the call during which the writer first failed returns the injected error; with coding (fault-free) ContentLength() == plaintext length == decoded length. Non-trivial = a run with >= 1 body byte or a non-200 status; distinct by (first call, value, pretty, coding, fault class: none/at-boundary/inside-call, failing call kind).")
 	ctx.Assume("at most one status-setting call, first in the sequence (as the property states)")
 	defer func() { restful.PrettyPrintResponses = true }()
 	seqs := ctx.N(500, 60000)
@@ -212,7 +254,7 @@ func c15(ctx *core.Ctx) {
 		}
 		r := ctx.Rand(si, "seq")
 		s := &c15Seq{First: c15Firsts[si%len(c15Firsts)], Status: statuses[r.Intn(len(statuses))], Value: r.Pick([]string{"small", "big", "big", "nil", "bad"}),
-			Pretty: r.Chance(1, 2), Accept: r.Pick([]string{"", "application/json", "application/xml", "application/xml;q=0.9, application/json;q=0.1"}), UseResp: r.Chance(1, 3), Adapter: r.Chance(1, 4)}
+			Pretty: r.Chance(1, 2), Accept: r.Pick([]string{"", "application/json", "application/xml", "application/xml;q=0.9, application/json;q=0.1"}), UseResp: r.Chance(1, 3), Adapter: r.Chance(1, 4), Copy: r.Chance(1, 3), HWF: si%9 == 4}
 		if si%5 == 3 {
 			s.Coding = r.Pick([]string{"gzip", "deflate"})
 		}
@@ -279,6 +321,12 @@ func judgeC15(ctx *core.Ctx, si int, s *c15Seq, run *c15Run, k int, cls string) 
 	cell := fmt.Sprintf("%s:coding=%s:pretty=%v", s.First, s.Coding, s.Pretty)
 	if s.Adapter {
 		cell += ":adapter"
+	}
+	if s.Copy {
+		cell += ":iocopy"
+	}
+	if s.HWF {
+		cell = "HandleWithFilter:" + cell
 	}
 	if run.panicked != nil {
 		ctx.Violation(si, "c15:panic:"+cell, fmt.Sprintf("panic: %v", run.panicked), doc)
